@@ -10,6 +10,20 @@ def replay_session(chk, path, module, cfg, reset_events=(), prefix=None, prefix_
     with open(path) as f:
         obj = json.load(f)
     rep = obj["replay"]
+    if isinstance(rep, dict) and "crash" in rep:
+        # the recorder process died: run the same recording again on the current tree
+        c = rep["crash"]
+        out = chk.path("replay-crash.ndjson")
+        record(c["family"], out, profile=c.get("profile", "release"), **c.get("args", {}))
+        last = ""
+        for ln in open(out):
+            if ln.strip():
+                last = ln
+        if '"ProcessCrash"' in last or os.path.exists(out + ".hang.json"):
+            print("VIOLATION property=%s replay=%s" % (chk.pid, path))
+            return 1
+        log("the recording completes on the current tree (no crash)")
+        return 0
     sess = rep.get("session") or rep.get("session_tail") or []
     profile = profile or rep.get("profile") or "release"
     tp0 = chk.path("replay-recorded.ndjson")
